@@ -231,8 +231,14 @@ func (b *bloomcache) hasCached(k cid.Cid) (has bool, ok bool) {
 		// in case of invalid key is forwarded deeper
 		return false, false
 	}
-	if b.BloomActive() {
-		blr := b.bloom.Load().HasTS(k.Hash())
+	// Load the filter before reading active, and confirm afterwards that it is
+	// still the live one: a negative answer is conclusive only if it comes from
+	// the filter that was live while active was observed true. Reading active
+	// first could pair a stale active=true with the empty filter that a
+	// concurrent Rebuild swapped in, reporting a stored block as missing.
+	bl := b.bloom.Load()
+	if b.BloomActive() && b.bloom.Load() == bl {
+		blr := bl.HasTS(k.Hash())
 		if !blr { // not contained in bloom is only conclusive answer bloom gives
 			b.hits.Inc()
 			return false, true
